@@ -211,8 +211,8 @@ pub fn run(g: &mut Global) {
         &check,
     );
     let tier = g.tier;
-    g.random("random", g.tier.pick(4000, 60000), &move || strategy(tier), &check);
+    g.random("random", g.tier.pick(30000, 200000), &move || strategy(tier), &check);
     if g.tier == Tier::Thorough {
-        g.random("long", 500, &long_strategy, &check);
+        g.random("long", 1000, &long_strategy, &check);
     }
 }
